@@ -267,7 +267,11 @@ theorem C10_forward_subst (chol : CovMat K) (v : Array K) (hv : v.size = chol.di
     weight matrix `P` of the block (`toMatrix C · P = 1`), the homogenised normal matrix is `AᵀC⁻¹A`,
     the normal right-hand side `AᵀC⁻¹b`, the sum of squares `vᵀC⁻¹v` for every `x`, and the residuals
     are recovered with `L̃`.  (The hypotheses of `C10_weighting` are discharged by
-    `C10_adj_choldec_LLt` and `C10_forward_subst`; several blocks: `Whiten.blockwise`.) -/
+    `C10_adj_choldec_LLt` and `C10_forward_subst`.  This theorem is about ONE block.  Several blocks:
+    on the dense path the statement about the executable is `C01_net_prepare` / `C01_net_cofactor`
+    (`Props/C01/NetFacade.lean`, not in C10's PROPS_FILES), on the sparse path `C10_homogenization_run` below;
+    `Whiten.blockwise` (Lemmas/CovWhiten.lean) is only the abstract block-diagonal algebra they use,
+    not a statement about the code.) -/
 theorem C10_homogenised_block {n : Nat} {C U : CovMat K} (hC : C.WF)
     (hsq : ∀ x : K, 0 < x → SqrtFn.sq x * SqrtFn.sq x = x)
     (h : (letI := fieldScalar K SqrtFn.sq; adjCholdec C) = .ok U)
